@@ -98,6 +98,10 @@ type matchAlt struct {
 	Entries []matchSpec
 	// Core marks the alphabet used for the quick tier's length-3 lists.
 	Core bool
+	// G2 marks the alphabet of the two-Gateway shape; G2Only alternatives (they name the second
+	// Gateway) are enumerated in that shape only.
+	G2     bool
+	G2Only bool
 }
 
 const (
@@ -153,6 +157,21 @@ var matchAlphabet = []matchAlt{
 	{Name: "port-80+uri-prefix-root-icase", Entries: []matchSpec{{Port: 80, URI: prefix("/"), IgnoreURICase: true}}},
 	// "Note: The keys uri, scheme, method, and authority will be ignored." (headers)
 	{Name: "hdr-reserved-key-method", Entries: []matchSpec{{Headers: h("method", exact("GET"))}}},
+	// two Gateways on one port (shape G2): rules restricted to one of them
+	{Name: "gw-gw2", G2: true, G2Only: true, Entries: []matchSpec{{Gateways: []string{"gw2"}}}},
+	{Name: "gw-gw+uri-prefix", G2: true, G2Only: true, Entries: []matchSpec{{Gateways: []string{"gw"}, URI: prefix("/foo")}}},
+	{Name: "gw-gw2+uri-prefix", G2: true, G2Only: true, Entries: []matchSpec{{Gateways: []string{"gw2"}, URI: prefix("/foo")}}},
+	{Name: "gw-gw+gw2", G2: true, G2Only: true, Entries: []matchSpec{{Gateways: []string{"gw", "gw2"}}}},
+	{Name: "or-gw-uri/gw2", G2: true, G2Only: true, Entries: []matchSpec{{Gateways: []string{"gw"}, URI: exact("/foo")}, {Gateways: []string{"gw2"}}}},
+}
+
+func init() {
+	for i := range matchAlphabet {
+		switch matchAlphabet[i].Name {
+		case "none", "uri-exact", "uri-prefix", "hdr-exact", "port-8080", "gw-gw", "gw-mesh":
+			matchAlphabet[i].G2 = true
+		}
+	}
 }
 
 // ---- actions --------------------------------------------------------------------------------
@@ -270,9 +289,15 @@ const (
 	shapeAW        // enumerated rules on the exact-host VS; an older VS on *.example.com has one fixed rule
 	shapeWA        // enumerated rules on the wildcard VS; a younger VS on a.example.com has one fixed rule
 	nShapes
+	// shapeG2 (outside the product of the other dimensions): ONE VirtualService with hosts
+	// [a.example.com, c.example.com] bound to TWO Gateways of the same workload on the same port:
+	// gw serves a.example.com, gw2 serves c.example.com. Checked on the gateway proxy only.
+	shapeG2 = nShapes
 )
 
-var shapeNames = []string{"A", "W", "AW", "WA"}
+const hostC = "c.example.com"
+
+var shapeNames = []string{"A", "W", "AW", "WA", "G2"}
 
 // top-level gateways binding of the enumerated VirtualService
 const (
@@ -304,6 +329,23 @@ type caseSpec struct {
 	// Split > 0: the first Split rules are in vs-main, the rest in a younger VirtualService
 	// "vs-split" with the same host (host defined by two VirtualServices; checked on the gateway only)
 	Split int `json:"split,omitempty"`
+	// Gw2First (shape G2): the Gateway gw2 is older than gw
+	Gw2First bool `json:"gw2first,omitempty"`
+}
+
+// gatewayFor: the Gateway resource whose server admits the host ("" = none). This is how a gateway
+// proxy's requests are attributed to a name of the `gateways` lists.
+func (c caseSpec) gatewayFor(host string) string {
+	if c.Shape != shapeG2 {
+		return "gw" // its server has hosts ["*"]
+	}
+	switch host {
+	case hostA:
+		return "gw"
+	case hostC:
+		return "gw2"
+	}
+	return ""
 }
 
 func (c caseSpec) String() string {
@@ -313,6 +355,9 @@ func (c caseSpec) String() string {
 	}
 	if c.Split > 0 {
 		rs[c.Split-1] += " ||"
+	}
+	if c.Shape == shapeG2 {
+		return fmt.Sprintf("G2 gw2first=%v [%s]", c.Gw2First, strings.Join(rs, " ; "))
 	}
 	return fmt.Sprintf("%s svc=%v dr=%v bind=%s [%s]", shapeNames[c.Shape], c.Svc, c.DR, bindNames[c.Bind], strings.Join(rs, " ; "))
 }
@@ -330,6 +375,11 @@ var otherAction = actionSpec{Name: "route-d3", Route: []destSpec{{Host: hostD3}}
 func (c caseSpec) virtualServices() []vsSpec {
 	main := vsSpec{Name: "vs-main", Gateways: bindGateways(c.Bind), Rules: c.Rules, Created: tBase.Add(2 * time.Hour)}
 	other := vsSpec{Name: "vs-other", Gateways: []string{"mesh", "gw"}, Rules: []ruleSpec{otherRule}}
+	if c.Shape == shapeG2 {
+		main.Hosts = []string{hostA, hostC}
+		main.Gateways = []string{"gw", "gw2"}
+		return []vsSpec{main}
+	}
 	if c.Split > 0 {
 		main.Hosts = []string{hostA}
 		second := main
@@ -393,16 +443,27 @@ func (c caseSpec) configs() []config.Config {
 		se("d1", hostD1, "10.0.0.2", 80),
 		se("d2", hostD2, "10.0.0.3", 80, 8080),
 		se("d3", hostD3, "10.0.0.4", 80),
-		{
-			Meta: config.Meta{GroupVersionKind: gvk.Gateway, Name: "gw", Namespace: "default", CreationTimestamp: tBase},
+	}
+	gwCfg := func(name string, created time.Time, hosts ...string) config.Config {
+		return config.Config{
+			Meta: config.Meta{GroupVersionKind: gvk.Gateway, Name: name, Namespace: "default", CreationTimestamp: created},
 			Spec: &networking.Gateway{
 				Selector: map[string]string{"istio": "ingressgateway"},
 				Servers: []*networking.Server{{
 					Port:  &networking.Port{Number: 80, Name: "http", Protocol: "HTTP"},
-					Hosts: []string{"*"},
+					Hosts: hosts,
 				}},
 			},
-		},
+		}
+	}
+	if c.Shape == shapeG2 {
+		t1, t2 := tBase, tBase.Add(time.Hour)
+		if c.Gw2First {
+			t1, t2 = t2, t1
+		}
+		out = append(out, gwCfg("gw", t1, hostA), gwCfg("gw2", t2, hostC))
+	} else {
+		out = append(out, gwCfg("gw", tBase, "*"))
 	}
 	if c.Svc {
 		out = append(out, se("a", hostA, "10.0.0.1", 80, 8080))
@@ -554,7 +615,11 @@ func (c caseSpec) requests() []request {
 		ms = methodsAll
 	}
 	var out []request
-	for _, a := range authoritiesAll {
+	auths := authoritiesAll
+	if c.Shape == shapeG2 {
+		auths = []string{"a.example.com", "c.example.com", "C.Example.COM:80", "b.example.com", "other.test"}
+	}
+	for _, a := range auths {
 		for _, p := range paths {
 			for _, q := range qs {
 				for _, m := range ms {
